@@ -96,6 +96,7 @@ func trValidateOne(repo string, p vpkg) (string, error) {
 	var constOrder []string
 	strConsts := map[string]bool{}
 	var validate *ast.FuncDecl
+	helpers := map[string]*ast.FuncDecl{}
 	for _, fn := range p.files {
 		f, err := parser.ParseFile(fset, filepath.Join(repo, p.dir, fn), nil, 0)
 		if err != nil {
@@ -129,6 +130,9 @@ func trValidateOne(repo string, p vpkg) (string, error) {
 				if x.Name.Name == "Validate" && x.Recv != nil && len(x.Recv.List) == 1 && exprString(x.Recv.List[0].Type) == "Config" {
 					validate = x
 				}
+				if x.Recv == nil && x.Body != nil {
+					helpers[x.Name.Name] = x
+				}
 			}
 		}
 	}
@@ -145,6 +149,16 @@ func trValidateOne(repo string, p vpkg) (string, error) {
 			if len(x.Lhs) == 1 && len(x.Rhs) == 1 && x.Tok == token.DEFINE && exprString(x.Rhs[0]) == recv {
 				out = exprString(x.Lhs[0])
 				continue
+			}
+			// validcfg.F = helper(..., cfg.F, defaultF): a straight-line helper is inlined
+			if d, f, err := inlinedDefault(x, out, recv, helpers, consts, fields); err == nil {
+				if _, dup := fieldDef[f]; dup {
+					return "", fmt.Errorf("%s: field %s is defaulted in more than one place", p.dir, f)
+				}
+				fieldDef[f] = d
+				continue
+			} else if err != errNotHelper {
+				return "", fmt.Errorf("%s: %v", p.dir, err)
 			}
 			return "", fmt.Errorf("%s: unsupported top-level assignment", p.dir)
 		case *ast.ReturnStmt:
@@ -342,4 +356,156 @@ func trValidate(repo string) (string, error) {
 		out += s
 	}
 	return out, nil
+}
+
+var errNotHelper = fmt.Errorf("not a helper call")
+
+// substIdent replaces parameter names by argument expressions in the small
+// expression language Validate and its helpers use.
+func substIdent(e ast.Expr, m map[string]ast.Expr) (ast.Expr, error) {
+	switch x := e.(type) {
+	case *ast.Ident:
+		if a, ok := m[x.Name]; ok {
+			return a, nil
+		}
+		return x, nil
+	case *ast.BasicLit:
+		return x, nil
+	case *ast.ParenExpr:
+		a, err := substIdent(x.X, m)
+		if err != nil {
+			return nil, err
+		}
+		return &ast.ParenExpr{X: a}, nil
+	case *ast.UnaryExpr:
+		a, err := substIdent(x.X, m)
+		if err != nil {
+			return nil, err
+		}
+		return &ast.UnaryExpr{Op: x.Op, X: a}, nil
+	case *ast.BinaryExpr:
+		a, err := substIdent(x.X, m)
+		if err != nil {
+			return nil, err
+		}
+		b, err := substIdent(x.Y, m)
+		if err != nil {
+			return nil, err
+		}
+		return &ast.BinaryExpr{X: a, Op: x.Op, Y: b}, nil
+	case *ast.SelectorExpr:
+		if id, ok := x.X.(*ast.Ident); ok {
+			if _, shadow := m[id.Name]; !shadow {
+				return x, nil
+			}
+		}
+	}
+	return nil, fmt.Errorf("unsupported expression in helper: %s", exprString(e))
+}
+
+// inlinedDefault translates `out.F = helper(args...)` where helper's body is a chain of
+// `if cond { return e }` (no else, no init), log-only statements and a final `return e`,
+// every e being (after substitution) either the receiver's own field F or a default constant.
+func inlinedDefault(as *ast.AssignStmt, out, recv string, helpers map[string]*ast.FuncDecl, consts map[string]string, fields map[string]bool) (string, string, error) {
+	if len(as.Lhs) != 1 || len(as.Rhs) != 1 || as.Tok != token.ASSIGN || out == "" {
+		return "", "", errNotHelper
+	}
+	sel, ok := as.Lhs[0].(*ast.SelectorExpr)
+	if !ok || exprString(sel.X) != out {
+		return "", "", errNotHelper
+	}
+	call, ok := as.Rhs[0].(*ast.CallExpr)
+	if !ok {
+		return "", "", errNotHelper
+	}
+	id, ok := call.Fun.(*ast.Ident)
+	if !ok {
+		return "", "", errNotHelper
+	}
+	h, ok := helpers[id.Name]
+	if !ok {
+		return "", "", errNotHelper
+	}
+	f := sel.Sel.Name
+	var params []string
+	for _, fl := range h.Type.Params.List {
+		for _, n := range fl.Names {
+			params = append(params, n.Name)
+		}
+	}
+	if len(params) != len(call.Args) || h.Type.Results == nil || len(h.Type.Results.List) != 1 {
+		return "", "", fmt.Errorf("helper %s: unsupported signature", id.Name)
+	}
+	m := map[string]ast.Expr{}
+	for i, p := range params {
+		m[p] = call.Args[i]
+	}
+	val := func(e ast.Expr) (string, error) {
+		s, err := substIdent(e, m)
+		if err != nil {
+			return "", err
+		}
+		t := exprString(s)
+		if t == recv+"."+f {
+			return t, nil
+		}
+		if _, isNum := consts[t]; isNum {
+			return t, nil
+		}
+		return "", fmt.Errorf("helper %s: unsupported result %s for field %s", id.Name, t, f)
+	}
+	var sb strings.Builder
+	closed := false
+	for i, st := range h.Body.List {
+		switch x := st.(type) {
+		case *ast.IfStmt:
+			if isLogOnly(x) {
+				continue
+			}
+			if x.Else != nil || x.Init != nil || len(x.Body.List) == 0 {
+				return "", "", fmt.Errorf("helper %s: unsupported if form", id.Name)
+			}
+			for _, b := range x.Body.List[:len(x.Body.List)-1] {
+				if !isLogOnly(b) {
+					return "", "", fmt.Errorf("helper %s: unsupported statement in if body", id.Name)
+				}
+			}
+			ret, ok := x.Body.List[len(x.Body.List)-1].(*ast.ReturnStmt)
+			if !ok || len(ret.Results) != 1 {
+				return "", "", fmt.Errorf("helper %s: if body does not end in a return", id.Name)
+			}
+			c, err := substIdent(x.Cond, m)
+			if err != nil {
+				return "", "", err
+			}
+			cond, err := vcond(c, recv, consts, fields)
+			if err != nil {
+				return "", "", fmt.Errorf("helper %s: %v", id.Name, err)
+			}
+			v, err := val(ret.Results[0])
+			if err != nil {
+				return "", "", err
+			}
+			fmt.Fprintf(&sb, "if %s then %s else ", cond, v)
+		case *ast.ReturnStmt:
+			if len(x.Results) != 1 || i != len(h.Body.List)-1 {
+				return "", "", fmt.Errorf("helper %s: unsupported return", id.Name)
+			}
+			v, err := val(x.Results[0])
+			if err != nil {
+				return "", "", err
+			}
+			sb.WriteString(v)
+			closed = true
+		default:
+			if !isLogOnly(st) {
+				return "", "", fmt.Errorf("helper %s: unsupported statement %T", id.Name, st)
+			}
+		}
+	}
+	if !closed {
+		return "", "", fmt.Errorf("helper %s: no final return", id.Name)
+	}
+	fields[f] = false
+	return sb.String(), f, nil
 }
